@@ -97,8 +97,8 @@ theorem foldl_erase_foreign (rs l : List Rule) (h : ∀ r ∈ rs, f r = false) :
     · exact filter_erase_foreign l r (h r (by simp))
     · rfl
 
-theorem incLinks_foreign (count : Nat) (add : Bool) (rs store res : List Rule)
-    (h : ∀ r ∈ rs, f (r.take count) = false) (hres : incLinks count add store rs = .ok res) :
+theorem incLinks_foreign (count : Nat) (add : Bool) (pol rs store res : List Rule)
+    (h : ∀ r ∈ rs, f (r.take count) = false) (hres : incLinks count add pol store rs = .ok res) :
     res.filter f = store.filter f := by
   induction rs generalizing store with
   | nil => simp [incLinks] at hres; subst hres; rfl
@@ -109,7 +109,11 @@ theorem incLinks_foreign (count : Nat) (add : Bool) (rs store res : List Rule)
     · rw [ih _ (fun x hx => h x (by simp [hx])) hres]
       cases add with
       | true => exact filter_addLink_foreign store _ (h r (by simp))
-      | false => exact filter_erase_foreign store _ (h r (by simp))
+      | false =>
+        simp only [Bool.false_eq_true, ↓reduceIte]
+        split
+        · rfl
+        · exact filter_erase_foreign store _ (h r (by simp))
 
 /-! ## foreign calls -/
 
@@ -150,7 +154,7 @@ theorem relink_part (cfg : Cfg) (hc : cfg.gCount = 3) (D : String) (s s2 : St) (
       | g2 => rfl
       | g =>
         simp only [Pol.set, Pol.get, Cfg.count, hc] at hl ⊢
-        exact incLinks_foreign 3 add rules _ l (fun r hx => by rw [inDom_take]; exact hr rfl r hx) hl
+        exact incLinks_foreign 3 add _ rules _ l (fun r hx => by rw [inDom_take]; exact hr rfl r hx) hl
 
 theorem finish_part (cfg : Cfg) (hc : cfg.gCount = 3) (D : String) (s1 : St) (sec : Sec) (add : Bool)
     (rules : List Rule) (ret : Ret) (hr : sec = .g → ∀ r ∈ rules, inDom .g D r = false) :
